@@ -205,7 +205,7 @@ func TestWriterReset(t *testing.T) {
 			return
 		}
 
-		if rapid.IntRange(0, 99).Draw(t, "h2.fail?") < 15 {
+		if rapid.IntRange(0, 99).Draw(t, "h2.fail?") >= 85 {
 			k := rapid.IntRange(0, 4).Draw(t, "h2.failat")
 			rec2.FailAt, rec2.Short = len(rec2.Calls)+k, rapid.SampledFrom([]int{0, 1, 3, 1 << 20}).Draw(t, "h2.short")
 			hx.Class("h2/fail-plan")
